@@ -20,7 +20,8 @@ B = h.bounds(
     quick=dict(HIST=3, VN=3, DN=2),
     thorough=dict(HIST=5, VN=4, DN=3),
 )
-KINDS = ["Count", "Sum", "Mean", "Vectorize(Sum, dim=2)", "StoreFilled", "GroupBy('a')", "Histogram([0,1,2])"]
+KINDS = ["Count", "Sum", "Mean", "Vectorize(Sum, dim=2)", "StoreFilled", "GroupBy('a')", "Histogram([0,1,2])",
+         "Histogram([0,1,2], bins=[0,0])", "Vectorize([Sum, StoreFilled(one by one)]) - results of different lengths"]
 BOUNDS = dict(vars(B), kinds=KINDS, meaning="histories of <= HIST operations over {fill, compute, "
               "reset} with symbolic integer data and a context chosen per value from {none, {a:1}, "
               "{a:2,b:{c:3}}}; VarianceMeanCount on <= VN values from -2..2; DSum on <= DN values from "
@@ -59,11 +60,15 @@ def make(kind):
         return StoreFilled()
     if kind == 5:
         return GroupBy("a")
+    if kind == 7:
+        return Histogram([0, 1, 2], bins=[0, 0])
+    if kind == 8:
+        return Vectorize([Sum(), StoreFilled(yield_as_a_group=False)])
     return Histogram([0, 1, 2])
 
 
 def mkdata(kind, x):
-    return (x, x + 1) if kind == 3 else x
+    return (x, x + 1) if kind in (3, 8) else x
 
 
 def with_ctx(data, ctx):
@@ -111,6 +116,15 @@ def expected(kind, filled):
                 keys.append(key)
                 groups.append([val(x, c)])
         return ("ok", _sorted_groups(groups))
+    if kind == 8:
+        # component-wise: the longest output, shorter ones padded with None
+        tot = 0
+        for x, _ in filled:
+            tot += x
+        rows = [(tot, filled[0][0] + 1)] if filled else [(tot, None)]
+        for x, _ in filled[1:]:
+            rows.append((None, x + 1))
+        return ("ok", [with_ctx(r, last) for r in rows])
     bins = [0, 0]
     oor = 0
     for x, _ in filled:
@@ -128,7 +142,7 @@ def observe(kind, el):
         res = list(el.compute())
     except lena.core.LenaZeroDivisionError:
         return ("raises", "LenaZeroDivisionError")
-    if kind == 6:
+    if kind in (6, 7):
         out = []
         for r in res:
             hist, ctx = r
@@ -153,13 +167,13 @@ def _sorted_groups(groups):
 
 def check_history(kind: int, ops: List[int], xs: List[int], cs: List[int]) -> bool:
     """
-    pre: 0 <= kind <= 6
+    pre: 0 <= kind <= 8
     pre: 1 <= len(ops) <= B.HIST
     pre: len(xs) == len(ops) and len(cs) == len(ops)
-    pre: h.in_shard(kind + 7 * (len(ops) % 2))
+    pre: h.in_shard(kind + 9 * (len(ops) % 2))
     post: _
     """
-    kind = h.concrete(kind, 0, 6)
+    kind = h.concrete(kind, 0, 8)
     el = make(kind)
     filled = []
     with cut():
@@ -290,12 +304,13 @@ def check_dsum_precision(need: int) -> bool:
 
 
 CONDITIONS = [
-    dict(fn="check_history", shards=(14, 14), budget=(90, 1500),
+    dict(fn="check_history", shards=(18, 18), budget=(90, 1500),
          smoke=["check_history(0, [0, 0, 1, 2], [5, 6, 0, 0], [1, 2, 0, 0])",
                 "check_history(2, [0, 1, 2, 1], [5, 6, 0, 0], [1, 2, 0, 0])",
                 "check_history(5, [0, 0, 0, 1], [5, 6, 7, 0], [1, 2, 1, 0])",
                 "check_history(3, [0, 1], [5, 6], [0, 0])", "check_history(4, [0, 2, 0], [5, 6, 1], [0, 0, 1])",
-                "check_history(6, [0, 0, 1], [0, 5, 0], [0, 1, 0])"]),
+                "check_history(6, [0, 0, 1], [0, 5, 0], [0, 1, 0])", "check_history(7, [2, 0, 2], [0, 0, 0], [0, 1, 0])",
+                "check_history(8, [0, 0, 1], [4, 5, 0], [0, 1, 0])", "check_history(8, [1], [0], [0])"]),
     dict(fn="check_variance", shards=(5, 5), budget=(80, 900),
          smoke=["check_variance(3, 0, 2, 4, 0, True, -1)", "check_variance(1, 0, 2, 4, 0, True, -1)",
                 "check_variance(3, 0, 2, 4, 0, False, 1)"]),
